@@ -27,6 +27,7 @@ LEVEL_TEXT += ' Added clause: seeds and guards of active left recursion are neve
 TECHNIQUE += '; ParserConfig.__post_init__ interpreted over setting combinations: tracing switches change no other setting'
 TECHNIQUE += '; call() and rule_call() interpreted together: a failure is offered to set_furthest_exception whether computed or replayed from the memo (R11)'
 LEVEL_TEXT += ' Added clause: tracing cannot switch memoization or left recursion.'
+LEVEL_TEXT += " Added clauses (rounds 9-11): a rule's failure is offered as furthest failure whether it was computed or replayed from the memo."
 LEVEL_NOTE = ('Trusted: dict semantics of BoundedDict eviction (only deletes); an evicted or pruned entry only makes a '
               'rule body run again because the sole reader returns/raises the stored outcome unchanged.')
 EXPLANATION = ('Static analysis of /repo sources, TatSu not imported. Memo-store accesses are enumerated over the '
